@@ -86,7 +86,7 @@ def r6(fx):
     q = fx.fn('__init__', 'QRCode.matrix_iter')
     r = single([s for s in q.body if isinstance(s, ast.Return)], 'return of QRCode.matrix_iter')
     a = single([s for s in q.body if isinstance(s, ast.Assign)], 'iterfn selection')
-    okq = nf.norm(a.value) == 'utils.matrix_iter_verbose if verbose else utils.matrix_iter' and \
+    okq = nf.same(a.value, 'utils.matrix_iter_verbose if verbose else utils.matrix_iter') and \
         pat.match(r.value, 'iterfn(self.matrix, self._matrix_size, scale, border)') is not None
     yield ob('QRCode.matrix_iter dispatches on verbose with (matrix, size, scale, border)', okq, q, got=f'{ast.unparse(a)}; {ast.unparse(r.value)}',
              want='utils.matrix_iter_verbose if verbose else utils.matrix_iter')
@@ -295,10 +295,10 @@ def _guard_sufficient(test, fn, mapname):
         if b is not None and nf.norm(b['c']) == nf.norm(b['c2']):
             ptxt = nf.norm(b['p'])
             ktxt = nf.norm(b['k'])
-            if ptxt == f'({ktxt}>>8)':
+            if ptxt == f'({ktxt}>>8)':   # truthiness of type >> 8
                 has_dark = True
                 continue
-            if ptxt == f'not ({ktxt}>>8)' or ptxt == f'not {ktxt} >> 8':
+            if ptxt == f'(not ({ktxt}>>8))':
                 has_light = True
                 continue
         if pat.match(d, f'len(set({mapname}.values())) > 2') is not None or pat.match(d, 'number_of_colors > 2') is not None \
@@ -345,7 +345,7 @@ def r8(fx):
     yield ob('write_ppm has no plain (two-colour) row source', not plain_sources, ppm, got=plain_sources, want=[])
     nb = single([s for s in svg.body if isinstance(s, ast.Assign) and ast.unparse(s.targets[0]) == 'need_background'], 'need_background in write_svg')
     yield ob('write_svg: the background rectangle replaces the light colour only in plain two-colour rendering',
-             nf.norm(nb.value) == nf.norm(ast.parse('not is_multicolor and colormap[consts.TYPE_QUIET_ZONE] is not None and not draw_transparent', mode='eval').body),
+             nf.same(nb.value, 'not is_multicolor and colormap[consts.TYPE_QUIET_ZONE] is not None and not draw_transparent'),
              nb, got=ast.unparse(nb.value), want='not is_multicolor and colormap[consts.TYPE_QUIET_ZONE] is not None and not draw_transparent')
     okp = any(pat.match(n, "b''.join(pack(b'>3B', *colormap[mt]) for mt in row)") is not None for n in ast.walk(ppm)) and \
         any(pat.match(c, 'matrix_iter_verbose(matrix, matrix_size, scale, border)') is not None for c in src.calls_in(ppm))
